@@ -708,9 +708,9 @@ pub open spec fn read_copies_accepted(rs: ReadOnlyCache, links: Map<PathV, Inode
         d.contract(**wcontract('this'))
         d.thread(['this . maybe_sync_path', 'this . set_impl', 'this . put_impl', 'this . finalize_tempfile', 'this . touch', 'this . get'])
         if variant == 'path':
-            d.insert_after('this . maybe_sync_path ( value ) ? ;', '\n            proof { if valid_key(str_bytes(key.name)) { lemma_value_ok_after_sync(*old(w), *w, pv(value), str_bytes(key.name)); } }')
+            d.insert_after_stmt('this . maybe_sync_path (', '\n            proof { if valid_key(str_bytes(key.name)) { lemma_value_ok_after_sync(*old(w), *w, pv(value), str_bytes(key.name)); } }')
         else:
-            d.insert_after('let path = this . finalize_tempfile ( value ) ? ;', '\n            proof { if valid_key(str_bytes(key.name)) { lemma_value_ok_after_finalize(*old(w), *w, path.pathv(), str_bytes(key.name), this.syncs()); } }')
+            d.insert_after_stmt('let path = this . finalize_tempfile (', '\n            proof { if valid_key(str_bytes(key.name)) { lemma_value_ok_after_finalize(*old(w), *w, path.pathv(), str_bytes(key.name), this.syncs()); } }')
     weave_get_or_update(u, INV, BADK)
     weave_builders_stack(u)
     u.text('}\n')
@@ -877,16 +877,16 @@ pub fn opt_arc_as_ref<T: ?Sized>(o: &Option<Arc<T>>) -> (r: Option<&T>)
              'r.is_ok() ==> final(w).published > old(w).published || cache.lookup(old(w).files, key).is_some()'),
             ('C01 C15:the-hit-keeps-its-bytes', 'final(w).inodes.contains_key(file.ino()) && final(w).inodes[file.ino()].content == old(w).inodes[file.ino()].content'),
         ])
-    pr.insert_after('let mut tmp = NamedTempFile :: new_in ( cache . temp_dir ( key ) ? ) ? ;',
+    pr.insert_after_stmt('let mut tmp = NamedTempFile :: new_in',
                     '\n            let ghost w2 = *w;\n            let ghost tmp_path = tmp.pathv();\n            let ghost tmp_ino = tmp.ino();\n'
                     '            proof {\n'
                     '                lemma_path_split(tmp.pathv());\n'
                     '                assert(cache.lookup(w2.files, key) == cache.lookup(old(w).files, key));\n'
                     '                assert(w2.invisible(tmp.ino()) && !w2.in_cache_namespace(tmp.pathv()) && forall|q: PathV| #[trigger] w2.files.contains_key(q) && w2.files[q] == tmp.ino() ==> q == tmp.pathv());\n'
                     '            }')
-    pr.insert_after('std :: io :: copy ( & mut file , tmp . as_file_mut ( ) ) ? ;',
+    pr.insert_after_stmt('std :: io :: copy (',
                     '\n            proof { crate::std::io::lemma_copied_whole(w2.inodes[file.ino()].content); assert(w2.inodes.contains_key(file.ino())); assert(file.ino() != tmp.ino()); assert(w.inodes.contains_key(file.ino())); assert(w2.inodes[file.ino()].content == old(w).inodes[file.ino()].content); assert(w.inodes[file.ino()].content == w2.inodes[file.ino()].content); }')
-    pr.insert_after('let path = finalize_tempfile ( tmp , sync ) ? ;',
+    pr.insert_after_stmt('let path = finalize_tempfile (',
                      '\n            proof {\n'
                      '                let pth = path.pathv();\n'
                      '                assert(pth == tmp_path);\n'
@@ -928,7 +928,7 @@ pub fn opt_arc_as_ref<T: ?Sized>(o: &Option<Arc<T>>) -> (r: Option<&T>)
              'r.is_ok() && !%s && no_read_copy(%s, old(w).files, key) ==> if self.writer().is_some() { final(w).published > old(w).published } else { '
              '!old(w).inodes.contains_key(r.unwrap().ino()) && final(w).published == old(w).published && namespace_same(*old(w), *final(w)) }' % (WHIT, RS)),
         ])
-    g.insert_after('let mut tmp = NamedTempFile :: new_in ( cache . temp_dir ( key ) ? ) ? ;',
+    g.insert_after_stmt('let mut tmp = NamedTempFile :: new_in',
                    '\n        let ghost w2 = *w;\n        let ghost tmp_path = tmp.pathv();\n        let ghost tmp_ino = tmp.ino();\n'
                    '        proof {\n'
                    '            lemma_path_split(tmp.pathv());\n'
@@ -936,7 +936,7 @@ pub fn opt_arc_as_ref<T: ?Sized>(o: &Option<Arc<T>>) -> (r: Option<&T>)
                    '            assert(w2.invisible(tmp.ino()) && !w2.in_cache_namespace(tmp.pathv()) && !w2.under_ro(tmp.pathv()) '
                    '&& forall|q: PathV| #[trigger] w2.files.contains_key(q) && w2.files[q] == tmp.ino() ==> q == tmp.pathv());\n'
                    '        }', nth=-1)
-    g.insert_after('let mut tmp = tempfile :: tempfile ( ) ? ;', '\n                proof { crate::tempfile::lemma_anon_invisible(wt0, *w, Ok(tmp)); }')
+    g.insert_after_stmt('let mut tmp = tempfile :: tempfile (', '\n                proof { crate::tempfile::lemma_anon_invisible(wt0, *w, Ok(tmp)); }')
     g.insert_before('let mut tmp = tempfile :: tempfile ( ) ? ;', 'let ghost wt0 = *w;\n                ')
     g.body_start('let ghost w0 = *w;   // the local variable `old` below shadows old(..)')
     g.attr('#[verifier::rlimit(400)]')   # ~30 exits x 11 postconditions: the largest query of the unit (see DESIGN, solver budget)
